@@ -5,7 +5,8 @@
    checks meta-properties of these definitions).
 
    Pass tree node:  [k |-> kind, c |-> <<children>>, a |-> <<integer attributes>>]
-     "body"    a = <<id, behaviour, wd, wm, we>>   behaviour 0 mark (append one full-width op), 1 identity,
+     "body"    a = <<id, behaviour, wd, wm, we [, wi]>>   (wi: in-place writes, see InitCell below; absent = 0)
+               behaviour 0 mark (append one full-width op), 1 identity,
                                                   2 rewrite (retag every primitive op), 3 shrink to empty,
                                                   4 grow (append two ops), 5 fail (raise);
                                                   wd/wm/we = 1: writes user keys / placement + both mappings / error
@@ -30,12 +31,12 @@
 
    Abstract circuit: sequence of ops in program (iteration) order, op = [t |-> tag, loc |-> qudits, b |-> is a block,
    sub |-> inner circuit of a block (local qudit numbers)].
-   Abstract pass data: [d, k (user keys), pl (placement), im, fm (initial/final mapping), err (rational <<num, den>>),
+   Abstract pass data: [d, k (user keys), cell/cr (a pre-existing mutable value and its identity), gs (gate set of the model), pl (placement), im, fm (initial/final mapping), err (rational <<num, den>>),
    saw0 (tags of the circuit the first body that touched this record was given), fe (ForEachBlockPass_data:
    one sequence of [dat, rep] per execution of a ForEachBlockPass)].
 
    env = [sc |-> script table,
-          l2 |-> subset of {"dtd", "par"}: node kinds whose state restore is modelled the way PassData.become
+          l2 |-> subset of {"dtd", "par", "shallow"}: "shallow" = DoThenDecide's snapshot is a shallow copy; "dtd"/"par" = node kinds whose state restore is modelled the way PassData.become
                  works in the implementation today (both mappings are NOT copied).  {} is the property (L1).
           berr |-> for calculate_error_bound = TRUE: the observed per-block errors (the numeric distance cannot be
                  recomputed here; only the bookkeeping formula is checked)]                                       *)
@@ -65,7 +66,17 @@ Tags(c) == IF Len(c) = 0 THEN <<>>
            ELSE (IF c[1].b THEN Tags(c[1].sub) ELSE <<c[1].t>>) \o Tags(SubSeq(c, 2, Len(c)))
 FirstTag(o) == LET t == Tags(<<o>>) IN IF Len(t) = 0 THEN 0 ELSE t[1]
 
-Fresh(w) == [d |-> <<>>, k |-> 0, pl |-> Id(w), im |-> Id(w), fm |-> Id(w), err |-> <<0, 1>>, saw0 |-> <<-1>>, fe |-> <<>>]
+\* A mutable cell: the value of the user key 'cell' (a dict holding a list and a nested dict) that exists in every pass data
+\* BEFORE the pass tree starts.  data.cell is its (deep) value, data.cr names the OBJECT currently bound to the key
+\* (index into s.heap, the store of cell objects: s.heap[data.cr] = data.cell is an invariant).  A body may
+\*   wi = 1  mutate the cell in place (the object keeps its identity),   wi = 2  rebind the key to a new object,
+\*   wi = 3  edit the lists behind initial_mapping / final_mapping in place,   wi = 4  edit the placement list in place,
+\*   wi = 5  mutate the machine model in place (data.gate_set = ... assigns into the model object).
+\* The property (L1) is about values: a restore point gives back the deep value the data had.  Identity only matters
+\* for the implementation-shaped variants (env.l2).
+InitCell == [l |-> <<0>>, x |-> 0]
+Fresh(w) == [d |-> <<>>, k |-> 0, pl |-> Id(w), im |-> Id(w), fm |-> Id(w), err |-> <<0, 1>>, saw0 |-> <<-1>>, fe |-> <<>>,
+             cell |-> InitCell, cr |-> 1, gs |-> 0]
 
 \* ------------------------------------------------------------------ scripts
 ScriptOf(sc, key) ==
@@ -126,7 +137,19 @@ ExecBody(t, path, s) ==
       d2 == IF t.a[4] = 1 THEN [d1 EXCEPT !.pl = Rot(s.n, id + 1), !.im = Rot(s.n, id), !.fm = Rot(s.n, 2 * id + 1)] ELSE d1
       d3 == IF t.a[5] = 1 THEN [d2 EXCEPT !.err = Norm(id, 16)] ELSE d2
       d4 == IF d3.saw0 = <<-1>> THEN [d3 EXCEPT !.saw0 = Tags(s.circ)] ELSE d3
-  IN IF beh = 5 THEN [s1 EXCEPT !.failed = TRUE] ELSE [s1 EXCEPT !.circ = circ2, !.data = d4]
+      wi == IF Len(t.a) >= 6 THEN t.a[6] ELSE 0
+      mut == [l |-> Append(d4.cell.l, id), x |-> d4.cell.x + id]             \* in place: append to the list, bump the nested entry
+      new == [l |-> Append(d4.cell.l, id + 10), x |-> id]                      \* a new object bound to the key
+      d5 == CASE wi = 1 -> [d4 EXCEPT !.cell = mut]
+              [] wi = 2 -> [d4 EXCEPT !.cell = new, !.cr = Len(s.heap) + 1]
+              [] wi = 3 -> [d4 EXCEPT !.im = Rot(s.n, id + 2), !.fm = Rot(s.n, 2 * id + 2)]
+              [] wi = 4 -> [d4 EXCEPT !.pl = Rot(s.n, id + 2)]
+              [] wi = 5 -> [d4 EXCEPT !.gs = id]
+              [] OTHER -> d4
+      heap2 == CASE wi = 1 -> [s.heap EXCEPT ![d4.cr] = mut]
+                 [] wi = 2 -> Append(s.heap, new)
+                 [] OTHER -> s.heap
+  IN IF beh = 5 THEN [s1 EXCEPT !.failed = TRUE] ELSE [s1 EXCEPT !.circ = circ2, !.data = d5, !.heap = heap2]
 
 RECURSIVE Exec(_, _, _, _)
 RECURSIVE RunSeq(_, _, _, _, _)
@@ -137,8 +160,16 @@ ExecDTD(t, path, s, env) ==
   IF s0.failed THEN s0 ELSE
   LET e == EvalCond(t.a[1], path, s.circ, s0.circ, s0, env) IN
   IF e[1] THEN e[2]
-  ELSE [e[2] EXCEPT !.circ = s.circ, !.res = s.res,
-                    !.data = IF "dtd" \in env.l2 THEN [s.data EXCEPT !.im = s0.data.im, !.fm = s0.data.fm] ELSE s.data]
+  \* rejected: circuit and data are what they were (deep values).  "shallow" (L2 variant): the snapshot shares the
+  \* objects stored under user keys, so it shows whatever was done IN PLACE to the object that was bound before the
+  \* body started (s.data.cr), while rebinding and everything held in dedicated fields is undone.
+  ELSE LET d0 == IF "dtd" \in env.l2 THEN [s.data EXCEPT !.im = s0.data.im, !.fm = s0.data.fm] ELSE s.data
+           sh == "shallow" \in env.l2
+       IN [e[2] EXCEPT !.circ = s.circ, !.res = s.res,
+                       \* (the list under ForEachBlockPass_data is such an object once an earlier ForEachBlockPass created it)
+                       !.data = IF sh THEN [d0 EXCEPT !.cell = s0.heap[s.data.cr],
+                                                      !.fe = IF Len(s.data.fe) > 0 THEN s0.data.fe ELSE @] ELSE d0,
+                       !.heap = IF sh THEN s0.heap ELSE [s0.heap EXCEPT ![s.data.cr] = s.data.cell]]
 
 \* suffix of scripted evaluations a sub-execution added
 NewPos(sub, s) == SubSeq(sub.pos, Len(s.pos) + 1, Len(sub.pos))
@@ -156,7 +187,7 @@ ExecPar(t, path, s, env) ==
       s1 == [s EXCEPT !.pos = pos1, !.log = Append(@, seg)]
   IN IF bad THEN [s1 EXCEPT !.failed = TRUE]
      ELSE LET p == Pick(2, 1, s1)  w == R[p[1]] IN
-          [p[2] EXCEPT !.circ = w.circ, !.res = w.res,
+          [p[2] EXCEPT !.circ = w.circ, !.res = w.res, !.heap = w.heap,
                        !.data = IF "par" \in env.l2 THEN [w.data EXCEPT !.im = s.data.im, !.fm = s.data.fm] ELSE w.data]
 
 \* observed error of block i (calculate_error_bound); an observation with fewer block entries is judged by the shape clauses
@@ -169,8 +200,10 @@ ExecFE(t, path, s, env) ==
   LET Sub(i) == LET op == s.circ[sel[i]]  w == Len(op.loc)
                     c0 == IF op.b THEN op.sub ELSE <<[op EXCEPT !.loc = Id(w)]>>
                 IN Exec(t.c[1], path \o <<1>>,
-                        [log |-> <<>>, pos |-> s.pos, circ |-> c0, data |-> Fresh(w), failed |-> FALSE, n |-> w, blk |-> i - 1, res |-> {}],
+                        [log |-> <<>>, pos |-> s.pos, circ |-> c0, data |-> [Fresh(w) EXCEPT !.gs = s.data.gs], failed |-> FALSE, n |-> w, blk |-> i - 1, res |-> {},
+                         heap |-> <<InitCell>>],
                         env)
+      \* (a block's model is the sub-model of the outer one: it has the outer gate set)
       R == TLCEval([i \in 1..m |-> Sub(i)])
       pos1 == LET RECURSIVE P(_) P(i) == IF i = 0 THEN s.pos ELSE P(i - 1) \o NewPos(R[i], s) IN P(m)
       seg == [i \in 1..m |-> SeqLog(R[i].log)]
@@ -215,7 +248,7 @@ Exec(t, path, s, env) ==
     [] t.k = "foreach" -> ExecFE(t, path, s, env)
 
 Start(n, circ0, e0) == [log |-> <<>>, pos |-> <<>>, circ |-> circ0, data |-> [Fresh(n) EXCEPT !.err = Norm(e0, 16)],
-                        failed |-> FALSE, n |-> n, blk |-> -1, res |-> {}]
+                        failed |-> FALSE, n |-> n, blk |-> -1, res |-> {}, heap |-> <<InitCell>>]
 Env(sc, l2, berr) == [sc |-> sc, l2 |-> l2, berr |-> berr]
 
 RECURSIVE HasKind(_, _)
